@@ -413,7 +413,8 @@ def build_case(ctx, pym, sp, c, add):
     default_mass = kind == 'mass' and c.get('bcdiagval') is None
     bcdq = '(Some 0)' if default_mass else opt(c.get('bcdiagval'), lambda v: qlit(fr(v)))
     cst = trip([(int(t[0]), int(t[1]), fr(t[2])) for t in (c.get('const') or [])])
-    T = f'(asm_matrix {g} Ke {bcq} (bcd {bcdq}%Q Ke) (zt {cst}) {xq})'
+    Tdef = f'(asm_matrix {g} Ke {bcq} (bcd {bcdq}%Q Ke) (zt {cst}) {xq})'
+    T = 'T'
     scale = max([1.0] + [abs(float(v)) for _, v in items])
     tol = '0' if c.get('exact') else f'(rel {qlit(fr(scale))})'
     strict = vlib.blit(is_sparse and not c.get('const'))
@@ -440,7 +441,8 @@ def build_case(ctx, pym, sp, c, add):
             parts.append(f'{cmpf} (probe {n} (tr {T}) {vq}) {ql([fr(t) for t in np.asarray(Atv).ravel()])}%Q')
         if is_sparse and not c.get('const'):
             parts.append(f'Nat.eqb (length (sp_canon {n} {T})) {len(items)}')
-    add(label, f'(let Ke := {Kmodel} in ' + ' && '.join(parts) + ')', nontrivial, case={k: v for k, v in c.items() if not k.startswith('_')})
+    add(label, f'(let Ke := {Kmodel} in let T := {Tdef} in ' + ' && '.join(parts) + ')', nontrivial,
+        case={k: v for k, v in c.items() if not k.startswith('_')})
 
 
 # ------------------------------------------------------------------------------------------------ oracle
